@@ -203,6 +203,9 @@ func (st *State) execCallValues(call *ast.CallExpr) []Outcome {
 	switch {
 	case c.conv != nil:
 		v := st.eval(call.Args[0])
+		if v.K == KNil {
+			return one(st.zeroVal(st.subst(c.conv)))
+		}
 		return one(st.convert(v, st.typeOf(call.Args[0]), st.subst(c.conv), call.Pos(), exprStr(call)))
 	case c.builtin != "":
 		return st.execBuiltin(c.builtin, call)
@@ -545,7 +548,9 @@ func (st *State) runDefers() {
 }
 
 // applyFuncVal applies an uninterpreted pure function value.
-func (st *State) applyFuncVal(fv Val, args []Val) Val {
+func (st *State) applyFuncVal(fv Val, args []Val) Val { return st.applyFuncValMode(fv, args, false) }
+
+func (st *State) applyFuncValMode(fv Val, args []Val, pure bool) Val {
 	sig := fv.Fn.Sig
 	var terms, sorts []string
 	for _, a := range args {
@@ -579,7 +584,9 @@ func (st *State) applyFuncVal(fv Val, args []Val) Val {
 			}
 		}
 		v := unflatten(rt, rterms)
-		v = st.named(v, "app")
+		if !pure {
+			v = st.named(v, "app")
+		}
 		outs = append(outs, v)
 	}
 	if len(outs) == 1 {
@@ -921,6 +928,17 @@ func (st *State) applyContract(fct *FuncContract, fn *types.Func, recv *Val, arg
 			rn[sig.Results().At(i).Name()] = v
 		}
 	}
+	for _, g := range fct.Ghosts {
+		if g.Kind != "ghost" {
+			continue
+		}
+		// function-level ghost variables of the callee are existentially quantified for the caller: fresh symbols
+		if g.Expr.Op == "call" && (g.Expr.Text == "anyseq" || g.Expr.Text == "idseq") {
+			rn[g.Name] = vRaw(fc.fresh("ghost_"+g.Name, "(Array Int Int)"), "(Array Int Int)")
+		} else {
+			rn[g.Name] = vInt(fc.fresh("ghost_"+g.Name, "Int"), nil)
+		}
+	}
 	env2 := mkEnv(st, rn, old)
 	for _, e := range fct.Ensures {
 		st.assume(env2.evalBool(e.Expr))
@@ -1187,14 +1205,14 @@ func (st *State) newMap(t types.Type) Val {
 	ref := st.allocRef()
 	dom, size, vals, vcomps, _, vt := mapHeapNames(t)
 	hd := st.heapGet(dom, "(Array Int (Array Int Bool))")
-	st.heapSet(dom, "(Array Int (Array Int Bool))", sStore(hd, ref, "((as const (Array Int Bool)) false)"))
+	st.heapSet(dom, "(Array Int (Array Int Bool))", sStore(hd, ref, "((as const (Array Int Bool)) false)"), ref)
 	hs := st.heapGet(size, "(Array Int Int)")
-	st.heapSet(size, "(Array Int Int)", sStore(hs, ref, "0"))
+	st.heapSet(size, "(Array Int Int)", sStore(hs, ref, "0"), ref)
 	z := flatten(st.zeroVal(vt))
 	for i, vn := range vals {
 		srt := "(Array Int (Array Int " + vcomps[i].Sort + "))"
 		h := st.heapGet(vn, srt)
-		st.heapSet(vn, srt, sStore(h, ref, "((as const (Array Int "+vcomps[i].Sort+")) "+z[i]+")"))
+		st.heapSet(vn, srt, sStore(h, ref, "((as const (Array Int "+vcomps[i].Sort+")) "+z[i]+")"), ref)
 	}
 	return vInt(ref, t)
 }
@@ -1240,14 +1258,14 @@ func (st *State) mapStore(m Val, t types.Type, k Val, v Val, pos token.Pos, what
 	st.oblige("nil", "map-write("+what+")", sNot(sEq(m.S, "0")), pos)
 	hd := st.heapGet(dom, "(Array Int (Array Int Bool))")
 	present := st.define("present", "Bool", sSel(sSel(hd, m.S), key))
-	st.heapSet(dom, "(Array Int (Array Int Bool))", sStore(hd, m.S, sStore(sSel(hd, m.S), key, "true")))
+	st.heapSet(dom, "(Array Int (Array Int Bool))", sStore(hd, m.S, sStore(sSel(hd, m.S), key, "true")), m.S)
 	hs := st.heapGet(size, "(Array Int Int)")
-	st.heapSet(size, "(Array Int Int)", sStore(hs, m.S, sIte(present, sSel(hs, m.S), sAdd(sSel(hs, m.S), "1"))))
+	st.heapSet(size, "(Array Int Int)", sStore(hs, m.S, sIte(present, sSel(hs, m.S), sAdd(sSel(hs, m.S), "1"))), m.S)
 	terms := flatten(v)
 	for i, vn := range vals {
 		srt := "(Array Int (Array Int " + vcomps[i].Sort + "))"
 		h := st.heapGet(vn, srt)
-		st.heapSet(vn, srt, sStore(h, m.S, sStore(sSel(h, m.S), key, terms[i])))
+		st.heapSet(vn, srt, sStore(h, m.S, sStore(sSel(h, m.S), key, terms[i])), m.S)
 	}
 }
 
@@ -1260,9 +1278,9 @@ func (st *State) mapDelete(m Val, t types.Type, k Val, pos token.Pos, what strin
 	hd := st.heapGet(dom, "(Array Int (Array Int Bool))")
 	present := st.define("present", "Bool", sSel(sSel(hd, m.S), key))
 	// delete on a nil map is a no-op
-	st.heapSet(dom, "(Array Int (Array Int Bool))", sIte(sEq(m.S, "0"), hd, sStore(hd, m.S, sStore(sSel(hd, m.S), key, "false"))))
+	st.heapSet(dom, "(Array Int (Array Int Bool))", sIte(sEq(m.S, "0"), hd, sStore(hd, m.S, sStore(sSel(hd, m.S), key, "false"))), m.S)
 	hs := st.heapGet(size, "(Array Int Int)")
-	st.heapSet(size, "(Array Int Int)", sIte(sAnd(present, sNot(sEq(m.S, "0"))), sStore(hs, m.S, sSub(sSel(hs, m.S), "1")), hs))
+	st.heapSet(size, "(Array Int Int)", sIte(sAnd(present, sNot(sEq(m.S, "0"))), sStore(hs, m.S, sSub(sSel(hs, m.S), "1")), hs), m.S)
 }
 
 // ---------- lock discipline hooks (filled in by conc.go) ----------
